@@ -5,8 +5,10 @@ import HcipyVerif.Model.Scheduler
 namespace HcipyVerif.Driver.C20
 open HcipyVerif.Proto HcipyVerif.Scheduler
 
+/-- The driver state is a `Hist` advanced by `stepOp`, i.e. exactly the object the history theorems
+of Properties/C20.lean (`history_inv`, `history_conservation`, …) speak about. -/
 structure St where
-  sys : Sys := init
+  h : Hist := hinit
   /-- callback id ↦ (delay, child id) pairs: the callback schedules child at own time + delay -/
   tbl : List (Nat × List (Rat × Nat)) := []
 
@@ -24,6 +26,11 @@ def showStatus : Status → String
 
 def showEntry (e : Entry) : String := s!"{showRat e.time}:{e.ctr}:{e.id}"
 
+/-- consecutive entries strictly increasing (= `List.Pairwise Entry.lt`, the order being transitive) -/
+def sortedB : List Entry → Bool
+  | x :: y :: rest => decide (x.lt y) && sortedB (y :: rest)
+  | _ => true
+
 /-- pairs `d1:c1,d2:c2` -/
 def parsePairs? (s : String) : Option (List (Rat × Nat)) :=
   if s == "-" then some [] else
@@ -36,7 +43,7 @@ def step (st : St) : List String → St × String
   | ["reset"] => ({}, "ok")
   | ["add", t, id] =>
     match parseRat? t, parseNat? id with
-    | some t, some id => ({ st with sys := addCallback st.sys t id }, "ok")
+    | some t, some id => ({ st with h := stepOp (kidsOf st.tbl) 0 st.h (.add t id) }, "ok")
     | _, _ => (st, "bad-op")
   | ["kids", id, pairs] =>
     match parseNat? id, parsePairs? pairs with
@@ -45,13 +52,21 @@ def step (st : St) : List String → St × String
   | ["evolve", T, fuel, which] =>
     match parseRat? T, parseNat? fuel with
     | some T, some fuel =>
-      let run := if which == "old" then evolveUntilOld (kidsOf st.tbl) fuel st.sys T
-                 else evolveUntil (kidsOf st.tbl) fuel st.sys T
-      let out := s!"{showStatus run.status} t={showRat run.s.t} ctr={run.s.ctr} trace=" ++
+      let run := if which == "old" then evolveUntilOld (kidsOf st.tbl) fuel st.h.s T
+                 else evolveUntil (kidsOf st.tbl) fuel st.h.s T
+      let h' := if which == "old" then { st.h with s := run.s, trace := st.h.trace ++ run.trace }
+                else stepOp (kidsOf st.tbl) fuel st.h (.evolve T)
+      -- clock, counter and queue are printed from the history state the theorems are about
+      let out := s!"{showStatus run.status} t={showRat h'.s.t} ctr={h'.s.ctr} trace=" ++
         ";".intercalate (run.trace.map showEvent) ++ " queue=" ++
-        ";".intercalate (run.s.queue.map showEntry)
-      ({ st with sys := run.s }, out)
+        ";".intercalate (h'.s.queue.map showEntry)
+      ({ st with h := h' }, out)
     | _, _ => (st, "bad-op")
+  | ["hist"] =>
+    let h := st.h
+    (st, s!"hz={showRat h.hz} t={showRat h.s.t} created={h.created.length} fired={(fired h.trace).length} " ++
+      s!"pending={h.s.queue.length} sorted={sortedB (fired h.trace)} run=" ++
+      ";".intercalate ((fired h.trace).map showEntry))
   | _ => (st, "bad-op")
 
 end HcipyVerif.Driver.C20
